@@ -477,13 +477,17 @@ def impl(case):
     def obj_of(node):
         return vars_[node] if node < n else (free if node == n else sympy.Derivative(vars_[node - n - 1], free))
 
-    # what each right-hand side refers to, before and after the substitution graph_with_sympy_numbers performs
+    # what each right-hand side refers to, before and after the substitution graph_with_sympy_numbers performs.
+    # The code substitutes (and prunes in-edges) ONLY in an equation whose right-hand side holds a Quantity
+    # (`if subs_dict:`): 'hasQ' is that guard. For an equation without one there is no substituted right-hand side to
+    # observe; 'refsNum' is then sent EMPTY on purpose - the model has the same guard (C09.Eqn.hasQ, C09.keepEdge) and
+    # must not look at it (a model that pruned such an equation by refsNum would lose all its in-edges and disagree).
     eq_obs = []
     for i in range(len(case['eqs'])):
         rhs = built[i].rhs
         subs = {q: q.evalf(FLOAT_PRECISION) for q in rhs.atoms(Quantity)}
-        rhs_num = rhs.xreplace(subs) if subs else rhs
-        eq_obs.append({'refs': sorted(node_of(o) for o in _walk(rhs)), 'refsNum': sorted(node_of(o) for o in _walk(rhs_num))})
+        eq_obs.append({'refs': sorted(node_of(o) for o in _walk(rhs)), 'hasQ': bool(subs),
+                       'refsNum': sorted(node_of(o) for o in _walk(rhs.xreplace(subs))) if subs else []})
 
     points = []
     for p in case['points']:
@@ -556,7 +560,7 @@ def requests(case, obs):
     keys = [Str(key_of(case, k)) for k in range(2 * n + 1)]
     eqs = []
     for e, o in zip(case['eqs'], obs['eqs']):
-        item = [lhs_node(case, e), list(o['refs']), list(o['refsNum'])]
+        item = [lhs_node(case, e), list(o['refs']), list(o['refsNum']), bool(o['hasQ'])]
         if e['lhs'][0] == 'd':
             item += [e['lhs'][1], n]
         eqs.append(item)
@@ -746,7 +750,7 @@ MANIFEST = {
     'technique': 'Lean 4 theorems over an executable model of Model.graph / graph_with_sympy_numbers / '
                  'get_equations_for and of networkx\'s Kahn sort and ancestor closure + differential correspondence',
     'text': ('Proved in Lean for every equation system, request list, recursion mode and number representation '
-             '(lean/Cellml/Props/C09.lean, 23 theorems, standard axioms only, no bound on size or shape): the sort is a '
+             '(lean/Cellml/Props/C09.lean, 25 theorems, standard axioms only, no bound on size or shape): the sort is a '
              'permutation of the nodes on every acyclic graph (Kahn never gets stuck; it succeeds iff no node reaches '
              'itself), puts every node after all its predecessors, picks at each position the least key among the '
              'ready nodes, and with distinct str keys depends only on the SET of nodes and edges, not on insertion '
@@ -759,7 +763,8 @@ MANIFEST = {
              '(eqsfor_total, eqsfor_ok_only_if); the result is the same however the equations and reference sets were '
              'ordered (eqsfor_insertion_independent); the stripped result contains every requested left-hand side, is '
              'exactly the closure through references surviving number substitution, and is a subset of the unstripped '
-             'one (strip_subset, strip_ok_of_plain_ok). Partial: strip_values_partial (stripped and unstripped lists '
+             'one (strip_subset, strip_ok_of_plain_ok); an equation without a Quantity is not touched by the stripped variant, '
+             'as in the code (strip_keeps_plain_equation, strip_noop_without_quantities). Partial: strip_values_partial (stripped and unstripped lists '
              'compute the same value for every left-hand side the stripped list returns) ASSUMES that SymPy\'s '
              'Quantity->Float substitution preserves the value of each right-hand side. The model is tied to model.py '
              'by a seeded correspondence check: random acyclic systems of 3-14 variables built through the public API, '
